@@ -1,7 +1,7 @@
 ----------------------------- MODULE FilterTrace -----------------------------
 (* Trace validation for C09 (DESIGN.md 2.2).  trace.ndjson holds events recorded from the REAL  *)
 (* code by harness/cmd/h-filter:                                                                 *)
-(*   t = "filter": [kind, acl, in, out, flag]   one run of aclfilter.Filter / FilterDirEnt /      *)
+(*   t = "filter": [kind, acl, in, prior, out, flag]   (prior: ResultsFilteredByACLs on entry) one run of aclfilter.Filter / FilterDirEnt /      *)
 (*        FilterTxnResults on a concrete response; `in` carries, per element, the readability     *)
 (*        facts read off the real authorizer and the label under which it is projected; `out`     *)
 (*        the labels that survived, in order, and `flag` ResultsFilteredByACLs.                   *)
@@ -16,7 +16,7 @@ VARIABLE l
 
 FilterVerdict(e) ==
   IF e.kind \notin AllKinds THEN {"unknown-kind"}
-  ELSE Judge(e.kind, e.acl, e.in, e.out, e.flag)
+  ELSE Judge(e.kind, e.acl, e.in, e.out, e.prior, e.flag)
 
 \* the implementation's own state before the step (store row, reachability) and the clock phase are recorded facts
 ExpiryVerdict(e) ==
